@@ -466,6 +466,19 @@ func CheckQueues(ssn *framework.Session, prop framework.Plugin, st map[string]in
 				continue
 			}
 			q := map[rs.ResourceName]float64{rs.CpuResource: t.AcceptedResource.Cpu(), rs.MemoryResource: t.AcceptedResource.Memory(), rs.GpuResource: t.AcceptedResource.GetGpusQuota()}
+			// a gpu-memory request is worth a node-dependent share of a device: recompute it from the request and the
+			// node the pod is on instead of trusting the cached accepted resource
+			if mem := t.ResReq.GpuMemory(); mem > 0 && t.NodeName != "" {
+				if ni := ssn.ClusterInfo.Nodes[t.NodeName]; ni != nil && ni.MemoryOfEveryGpuOnNode > 0 {
+					portion := math.Ceil(float64(mem)/float64(ni.MemoryOfEveryGpuOnNode)*100) / 100
+					own := portion * float64(t.ResReq.GetNumOfGpuDevices())
+					if !feq(own, q[rs.GpuResource]) {
+						out = append(out, fmt.Sprintf("task %s AcceptedResource[gpu]: scheduler has %.6g, recomputed %.6g (gpu-memory %d on node %s with %d per device)",
+							t.Name, q[rs.GpuResource], own, mem, t.NodeName, ni.MemoryOfEveryGpuOnNode))
+					}
+					q[rs.GpuResource] = own
+				}
+			}
 			seen := map[common_info.QueueID]bool{}
 			for qa, ok := queues[job.Queue]; ok && !seen[qa.UID]; qa, ok = queues[qa.ParentQueue] {
 				seen[qa.UID] = true
